@@ -79,7 +79,7 @@ def replicated_ok(result_tree, src_tree, o):
 def make_family(rng, idx, n):
     profile = ['mixed', 'dicts', 'custom', 'plain', 'seq', 'none', 'custom'][idx % 7]
     base, _ = gen.gen_desc(rng, profile, 10)
-    rel = ['related', 'related', 'overlap', 'neutral', 'conflict', 'unrelated', 'prefix'][(idx // 7) % 7]
+    rel = ['related', 'related', 'overlap', 'neutral', 'conflict', 'unrelated', 'prefix', 'near-prefix'][(idx // 7) % 8]
     descs = []
     for k in range(n):
         if rel == 'related':
@@ -96,6 +96,13 @@ def make_family(rng, idx, n):
                 d = d2 or d
         elif rel == 'prefix':
             d = base.copy() if k == 0 else gen.substitute_leaves(base, rng, 0.5, 'plain', 4)[0]
+        elif rel == 'near-prefix':
+            # the first tree would be a prefix of the others - but for ONE breaking edit (an extra / missing child, another key, other metadata,
+            # another node type) somewhere in them: broadcasting the prefix must raise ValueError
+            d = base.copy() if k == 0 else gen.substitute_leaves(base, rng, 0.5, 'plain', 4)[0]
+            if k > 0:
+                d2, _ = gen.breaking_edit(d, rng)
+                d = d2 or d
         else:
             d, _ = gen.gen_desc(rng, profile, 8)
         descs.append(d)
